@@ -22,6 +22,7 @@ import (
 )
 
 type VNet struct {
+	hostile bool // the message being accounted for was crafted by the driver (rpc mode)
 	w      *World
 	byAddr map[string]*NNode
 	byNum  map[int]*NNode
@@ -339,7 +340,7 @@ func (vn *VNet) afterSync(r *NNode, fromNum int, wire []hg.WireEvent, err error,
 	}
 	vn.blocks += len(o["blocks"].([]interface{}))
 	x := map[string]interface{}{"from": fromNum, "evs": sent, "ins": inserted, "new": created}
-	if vn.syncTamper != nil {
+	if vn.syncTamper != nil || vn.hostile {
 		x["tampered"] = true // the events named here were altered in transit: the ids are those of the originals
 	}
 	if garbage > 0 {
